@@ -1342,6 +1342,11 @@ class AnyPayloadDecoder(AbstractSimplePayloadDecoder):
             if LOG:
                 LOG('decoding as untagged ANY, header substrate %s' % debug.hexdump(chunk))
 
+        # whether we are collecting a fragment on behalf of an enclosing ANY
+        isFragment = substrateFun is self.substrateCollector
+
+        anySpec = asn1Spec
+
         # Any components do not inherit initial tag
         asn1Spec = self.protoComponent
 
@@ -1378,11 +1383,16 @@ class AnyPayloadDecoder(AbstractSimplePayloadDecoder):
 
             chunk += component
 
-        if substrateFun:
-            yield chunk  # TODO: Weird
+        if not isTagged:
+            # untagged ANY holds complete encoding, its own
+            # end-of-octets included
+            chunk += EOO_SENTINEL
+
+        if isFragment:
+            yield chunk
 
         else:
-            yield self._createComponent(asn1Spec, tagSet, chunk, **options)
+            yield self._createComponent(anySpec, tagSet, chunk, **options)
 
 
 # character string types
